@@ -52,3 +52,9 @@ VARIANTS += [
       rule='C17-DEFAULTS', key='verify::flags.epsilon'),
     M('C17', 'refactor-explicit-default-none', E(FL, "    parser.add_argument('--output-fields', nargs='*',\n", "    parser.add_argument('--output-fields', nargs='*', default=None,\n"), kind='refactor'),
 ]
+
+VARIANTS += [
+    M('C17', 'stdin-accepted-only-right-after-the-command', E(PE, "            if a == '-':\n                return True", "            if a == '-' and self.argv[1:2] == ['-']:\n                return True"),
+      rule='C17-APPLICABLE', key='argv=verify -7 - c.tdda'),
+    M('C17', 'refactor-applicable-with-any', E(PE, "            if a == '-':\n                return True", "            if a in ('-',):\n                return True"), kind='refactor'),
+]
